@@ -242,61 +242,7 @@ Section Tracer.
         end
       else solve_t_E traces traced_ev traced_before traced_after d o t s tr.
 
-    (* SolverMixin.solve_period on a span of integer labels: list.index, KeyError when absent *)
-    Fixpoint locate (span : list Z) (lab : Z) : option nat :=
-      match span with
-      | [] => None
-      | y :: r => if y =? lab then Some 0%nat else option_map S (locate r lab)
-      end.
-    Definition traced_solve_period (span : list Z) (d : mdesc) (o : opts) (lab : Z) (s : mstate) (tr : traces)
-      : (mstate * traces) * outcome bool :=
-      match locate span lab with
-      | None => ((s, tr), Raise KeyError)
-      | Some p => traced_solve_t d o (Z.of_nat p) s tr
-      end.
-
-    (* SolverMixin.solve over the positions `ps` that iter_periods yields: min/max guard first, then one
-       solve_t per period, in order, stopping at the first exception *)
-    Fixpoint traced_fold (d : mdesc) (o : opts) (ps : list nat) (s : mstate) (tr : traces)
-      : (mstate * traces) * outcome (list bool) :=
-      match ps with
-      | [] => ((s, tr), Ret [])
-      | p :: r =>
-          match traced_solve_t d o (Z.of_nat p) s tr with
-          | (st', Raise e) => (st', Raise e)
-          | ((s', tr'), Ret b) =>
-              match traced_fold d o r s' tr' with
-              | (st'', Ret bs) => (st'', Ret (b :: bs))
-              | (st'', Raise e) => (st'', Raise e)
-              end
-          end
-      end.
-    Definition traced_solve (d : mdesc) (o : opts) (ps : list nat) (s : mstate) (tr : traces)
-      : (mstate * traces) * outcome (list bool) :=
-      if max_iter o <? min_iter o then ((s, tr), Raise ValueError) else traced_fold d o ps s tr.
-
-    (* the untraced twins of the two composite entry points, over Solver.solve_t_M *)
-    Definition plain_solve_period (span : list Z) (d : mdesc) (o : opts) (lab : Z) (s : mstate)
-      : mstate * outcome bool :=
-      match locate span lab with
-      | None => (s, Raise KeyError)
-      | Some p => solve_t_M num sub absf ltb isfin zero ev before after d o (Z.of_nat p) s
-      end.
-    Fixpoint plain_fold (d : mdesc) (o : opts) (ps : list nat) (s : mstate) : mstate * outcome (list bool) :=
-      match ps with
-      | [] => (s, Ret [])
-      | p :: r =>
-          match solve_t_M num sub absf ltb isfin zero ev before after d o (Z.of_nat p) s with
-          | (s', Raise e) => (s', Raise e)
-          | (s', Ret b) =>
-              match plain_fold d o r s' with
-              | (s'', Ret bs) => (s'', Ret (b :: bs))
-              | (s'', Raise e) => (s'', Raise e)
-              end
-          end
-      end.
-    Definition plain_solve (d : mdesc) (o : opts) (ps : list nat) (s : mstate) : mstate * outcome (list bool) :=
-      if max_iter o <? min_iter o then (s, Raise ValueError) else plain_fold d o ps s.
+    (* solve_period / solve on the extended instance: Tracer/TracerSolve.v (over SolveAll.v's iter_periods model) *)
   End Wrappers.
 
   (* the snapshot trace_t takes when it succeeds (total version used in statements): the values of the
